@@ -336,3 +336,34 @@ Definition kernel_decides (prev : kmaps) (ms : list mset) (tries : list (list pr
 (* a map state "before the first generation": nothing installed *)
 Definition empty_kmaps : kmaps :=
   {| km_routing := []; km_meta := 0; km_lpm := fun _ => None; km_domain := fun _ => None |}.
+
+(* ====================================================================================================== *)
+(* side conditions of the property's quantifier, and the statement "the kernel reads what was written"      *)
+(* ====================================================================================================== *)
+
+(* a match-set the builder can emit: one of the eleven routing types, fields in their Go types' ranges, an LPM index
+   that names one of the generation's tries *)
+Definition wf_mset (ntries : N) (m : mset) : bool :=
+  (m_type m <=? MatchType_Fallback) && (m_out m <? 256) && (m_mark m <? 2 ^ 32) &&
+  (m_ps m <? 65536) && (m_pe m <? 65536) && (m_mask m <? 256) &&
+  Nat.eqb (List.length (m_pname m)) 16 && forallb (fun b => b <? 256) (m_pname m) && (m_dscp m <? 256) &&
+  (if is_lpm_type (m_type m) then m_lpm m <? ntries else true).
+
+Definition wf_prefix (p : prefix128) : bool :=
+  (px_addr p <? 2 ^ 128) && (if px_v4 p then px_bits p <=? 32 else px_bits p <=? 128).
+
+(* the bytes of a match-set as they sit in routing_map: Go encoding, then the ring rewrite *)
+Definition kentry (alloc : N) (m : mset) : list N :=
+  (if is_lpm_type (m_type m) then le32_bytes (ring_slot MaxMatchSetLen alloc (m_lpm m)) ++ zeros 12 else value_bytes m)
+  ++ [b2n (m_not m); m_type m; m_out m; b2n (m_must m)] ++ le32_bytes (m_mark m).
+
+(* the kernel's accessors, applied to entry e, yield the field values of match-set m *)
+Definition decodes (alloc : N) (e : list N) (m : mset) : Prop :=
+  ms_type e = m_type m /\ ms_not e = b2n (m_not m) /\ ms_outbound e = m_out m /\ ms_must e = b2n (m_must m) /\
+  ms_mark e = m_mark m /\
+  (is_lpm_type (m_type m) = true -> ms_index e = ring_slot MaxMatchSetLen alloc (m_lpm m)) /\
+  ((m_type m = MatchType_Port \/ m_type m = MatchType_SourcePort) -> ms_port_start e = m_ps m /\ ms_port_end e = m_pe m) /\
+  (m_type m = MatchType_L4Proto -> ms_l4proto_type e mod 256 = m_mask m) /\
+  (m_type m = MatchType_IpVersion -> ms_ip_version e mod 256 = m_mask m) /\
+  (m_type m = MatchType_ProcessName -> le64 e 0 = le64 (m_pname m) 0 /\ le64 e 8 = le64 (m_pname m) 8) /\
+  (m_type m = MatchType_Dscp -> ms_dscp e = m_dscp m).
